@@ -26,6 +26,7 @@ META = {
     "with_suffix/str/Path preserve relativeness). Symlinks inside roots are not considered.",
 }
 META["technique"] += '; zero-expected lint for lexical path normalisation in the loaders (positive example kept)'
+META["technique"] += '; hand-through of the template name in Environment.get_template'
 
 JOIN_ATTRS = {"joinpath"}
 READ_ATTRS = {"open", "read_text", "read_bytes", "stat", "exists", "is_file", "is_dir", "iterdir", "glob", "rglob", "lstat"}
@@ -365,6 +366,32 @@ def run(prog: Program, res: Result) -> None:
     from checks.shared import check_no_lexical_path_normalisation
 
     check_no_lexical_path_normalisation(prog, res, "C13.R5")
+    res.rule("C13.R6", "the loader judges the name the caller gave: Environment.get_template[_async] passes its `name` parameter to loader.load[_async] as it is - never rebound, stripped or rewritten on the way (`./../x` with its leading `./..` stripped reaches the guard as `x`)")
+    env_cls6 = prog.cls("liquid2.environment.Environment")
+    n6 = 0
+    for nm6 in ("get_template", "get_template_async"):
+        m6 = env_cls6.methods.get(nm6)
+        if m6 is None:
+            raise AnalysisError(f"Environment.{nm6} vanished")
+        loads6 = [c for c in ast.walk(m6.node) if isinstance(c, ast.Call) and isinstance(c.func, ast.Attribute) and c.func.attr in ("load", "load_async")]
+        site6 = f"{m6.file}:{m6.node.lineno} Environment.{nm6}"
+        what6 = f"Environment.{nm6}: `name` reaches the loader as given"
+        problems6 = []
+        if not loads6:
+            problems6.append((m6.node.lineno, "no loader.load call"))
+        for c in loads6:
+            n6 += 1
+            arg = next((k.value for k in c.keywords if k.arg == "name"), c.args[1] if len(c.args) > 1 else None)
+            if not (isinstance(arg, ast.Name) and arg.id == "name"):
+                problems6.append((c.lineno, f"the loader receives `{norm(arg, 40) if arg is not None else '<nothing>'}`"))
+        for a in ast.walk(m6.node):
+            if isinstance(a, (ast.Assign, ast.AugAssign, ast.AnnAssign)) and any(isinstance(t, ast.Name) and t.id == "name" for t_ in (a.targets if isinstance(a, ast.Assign) else [a.target]) for t in ast.walk(t_)):
+                problems6.append((a.lineno, f"`{norm(a, 50)}` rebinds name"))
+        if problems6:
+            res.fail("C13.R6", file=m6.file, line=problems6[0][0], qualname=f"Environment.{nm6}", construct=f"Environment.{nm6}: the template name is rewritten before the loader sees it", message=f"Environment.{nm6}: {problems6[0][1]} - the absolute / parent-directory guard lives in the loader and tests what it is handed; a prefix stripped here (`./../main.liquid` -> `main.liquid`) turns a name that must fail into one that loads", what=what6)
+        else:
+            res.ok("C13.R6", site6, what6, "name=name, never rebound")
+    res.floor("C13.R6", "loader.load calls in Environment.get_template", n6, 2)
 
     # ------------------------------------------------------------------ R4 twins of the source getters
     res.rule("C13.R4", "sync and async source getters / loaders agree (await-normalised)")
